@@ -699,9 +699,19 @@ func wrapDisabled(d, exp Exp, lookup *TypeLookup) (Exp, error) {
 	case *SplitExp:
 		switch v := d.Value.(type) {
 		case *RefExp:
-			exp = &DisabledExp{
-				Disabled: v,
-				Value:    exp,
+			if _, ok := v.Forks[d.Call]; ok {
+				// The reference is to the matching fork of the bound node.
+				exp = &DisabledExp{
+					Disabled: v,
+					Value:    exp,
+				}
+			} else {
+				// The reference is to a collection, of which each fork
+				// takes one element.
+				exp = &DisabledExp{
+					Disabled: d,
+					Value:    exp,
+				}
 			}
 		case *ArrayExp:
 			arr := *v
